@@ -32,6 +32,35 @@ func c11Mentions(n ast.Node, key string) bool {
 	return found
 }
 
+// c11IgnoresNewStreams: the guard `sc.inGoAway`, or `sc.inGoAway && (… || id > sc.maxClientStreamID)`: once a GOAWAY was
+// sent, HEADERS of streams above its last stream id are ignored.
+func c11IgnoresNewStreams(cond ast.Expr) bool {
+	if exprKey(cond) == "sc.inGoAway" {
+		return true
+	}
+	b, ok := cond.(*ast.BinaryExpr)
+	if !ok || b.Op != token.LAND || exprKey(b.X) != "sc.inGoAway" {
+		return false
+	}
+	above := false
+	var walk func(e ast.Expr)
+	walk = func(e ast.Expr) {
+		switch x := e.(type) {
+		case *ast.ParenExpr:
+			walk(x.X)
+		case *ast.BinaryExpr:
+			if x.Op == token.LOR {
+				walk(x.X)
+				walk(x.Y)
+			} else if x.Op == token.GTR && exprKey(x.X) == "id" && exprKey(x.Y) == "sc.maxClientStreamID" {
+				above = true
+			}
+		}
+	}
+	walk(b.Y)
+	return above
+}
+
 func callsTo(n ast.Node, key string) []*ast.CallExpr {
 	var out []*ast.CallExpr
 	ast.Inspect(n, func(x ast.Node) bool {
@@ -576,7 +605,7 @@ func genShutdown() (string, error) {
 	}
 	ignores := false
 	for _, st := range ph.Body.List {
-		if i, ok := st.(*ast.IfStmt); ok && exprKey(i.Cond) == "sc.inGoAway" && endsInReturn(i.Body.List) {
+		if i, ok := st.(*ast.IfStmt); ok && endsInReturn(i.Body.List) && c11IgnoresNewStreams(i.Cond) {
 			ignores = true
 		}
 	}
